@@ -151,6 +151,17 @@ def build_essence_records(quick: bool, seed: int) -> list[dict[str, Any]]:
                 recs.append({'kind': 'essence', 'cfg': name, 'body': enc(body), 'impl': enc(essence(cfg, body, extra)),
                              'x': {'own': cfg['own'], 'kinfo': kinfo(body), 'statusfields': cfg['statusfields'],
                                    'extra': [list(p) for p in extra]}})
+            if body is bodies_[0]:
+                # handler-declared extra fields outside the default essence (e.g. field='status.flag'): every value that is there counts,
+                # the falsy ones too
+                for flag in (None, False, True, 0, 2, '', 'x', [], {}, [0]):
+                    b2 = copy.deepcopy(body); b2.setdefault('status', {})['other'] = 1
+                    if flag is not None or True:
+                        b2['status']['flag'] = flag
+                    for extra in ([('status', 'flag')], [('status', 'flag'), ('status', 'absent')], [('metadata', 'generation')]):
+                        recs.append({'kind': 'essence', 'cfg': name, 'body': enc(b2), 'impl': enc(essence(cfg, b2, extra)),
+                                     'x': {'own': cfg['own'], 'kinfo': kinfo(b2), 'statusfields': cfg['statusfields'],
+                                           'extra': [list(p_) for p_ in extra]}})
             for wname, w in own_writes(cfg, body):
                 after_body = w[1] if isinstance(w, tuple) else k8s_apply(body, w)
                 recs.append({'kind': 'own', 'cfg': name, 'write': wname, 'before': enc(before), 'after': enc(essence(cfg, after_body)),
